@@ -179,6 +179,23 @@ impl<S> IndexMap<S> {
 	}
 }
 
+#[cfg(json_syntax_verif)]
+impl<S> IndexMap<S> {
+	/// Verification hook: read-only dump of the buckets as
+	/// (representative, other positions) pairs, in table order.
+	pub fn verif_dump(&self) -> Vec<(usize, Vec<usize>)> {
+		unsafe {
+			self.table
+				.iter()
+				.map(|bucket| {
+					let indexes = bucket.as_ref();
+					(indexes.rep, indexes.other.clone())
+				})
+				.collect()
+		}
+	}
+}
+
 impl<S: BuildHasher> IndexMap<S> {
 	pub fn get<Q>(&self, entries: &[Entry], key: &Q) -> Option<&Indexes>
 	where
